@@ -444,6 +444,21 @@ func isRangeOverAcquired(recv ssa.Value, acq VMatch) bool {
 func rulePartialOutputs(p *Prog, r *Report, rule string) {
 	r.Begin(rule, "E-ORD", "partial outputs are removed on failure: createFrom drops the table on every error exit, the compaction builder defers cleanup, compactionTransact reverts on the exit panic, a discarded transaction removes its tables before giving up the lock", 6)
 	defer r.End()
+	// the compaction builder forgets its current output writer only once the table is finished: the
+	// deferred cleanup() can drop a half-written table only through b.tw
+	if fn := resolveFn(p, r, "leveldb", "(*tableCompactionBuilder).flush"); fn != nil {
+		fin := evCall("(*leveldb.tWriter).finish")
+		forget := func(in ssa.Instruction) bool {
+			st, ok := in.(*ssa.Store)
+			return ok && isFieldAddr(st.Addr, "leveldb.tableCompactionBuilder", "tw") && isNilConst(st.Val)
+		}
+		ordPrecede(p, r, fn, "writer-forgotten-after-finish", nil, fin, "tw.finish()", forget, "b.tw = nil")
+		ordNotOnError(p, r, fn, "writer-kept-on-finish-error", mErrOfCall("(*leveldb.tWriter).finish"), "tw.finish()", fin, forget, "b.tw = nil")
+	}
+	if fn := resolveFn(p, r, "leveldb", "(*tableCompactionBuilder).cleanup"); fn != nil {
+		hasW := nilAtom("b.tw==nil", mFieldLoad("leveldb.tableCompactionBuilder", "tw"))
+		checkGuardExact(p, r, GuardSpec{Rule: "cleanup-drops-open-writer", Fn: fn, Target: evCall("(*leveldb.tWriter).drop"), TargetDesc: "the half-written table is dropped", Atoms: []Atom{hasW}, G: func(a []bool) bool { return !a[0] }, GDesc: "an output writer is open"}, isReturn, "return")
+	}
 	if fn := resolveFn(p, r, "leveldb", "(*tOps).createFrom"); fn != nil {
 		var epi *ssa.Function
 		for _, a := range fn.AnonFuncs {
